@@ -394,9 +394,25 @@ def _unary(ctx, model, E):
         ctx.ob(f"E/Expression.{name}", ok, E.loc(), what if ok else
                f"Expression.{name} is not {what}")
     mem = E.members.get("__invert__")
-    ok = mem is not None and all(
-        _result(ps.retval) == ("node", "BitwiseNot", ["S"])
-        for ps in summarize(mem.node, node_param=False))
+    def invert_path_ok(ps):
+        if _result(ps.retval) == ("node", "BitwiseNot", ["S"]):
+            return True
+        # ~~x = x: the operand of an existing inversion is handed back, on a
+        # path that knows self to be exactly such a node (~ is an involution)
+        if ps.retval == ("self", "child") or ps.retval == ("attr", S, "child"):
+            for _, pol, v in ps.conds:
+                if pol and isinstance(v, tuple) and (
+                        (v[0] == "compare" and v[1] == ("Is",)
+                         and v[2] == ("typeof", S)
+                         and "BitwiseNot" in str(v[3]))
+                        or (v[0] == "call" and v[1] == "isinstance"
+                            and v[2][0] == S and "BitwiseNot" in str(v[2][1]))):
+                    return True
+        return False
+    pss_inv = [ps for ps in summarize(mem.node, node_param=False)
+               if ps.term == "return"] if mem is not None else []
+    ok = bool(pss_inv) and all(invert_path_ok(ps) for ps in pss_inv) and any(
+        _result(ps.retval) == ("node", "BitwiseNot", ["S"]) for ps in pss_inv)
     ctx.ob("E/Expression.__invert__", ok, E.loc(),
            "~x = BitwiseNot(x)" if ok else "Expression.__invert__ is not "
            "BitwiseNot(self)")
